@@ -204,7 +204,7 @@ var required = []struct{ name, typ string }{
 	{"richtextFindContainerSizeBody", "L"}, {"textDrawBody", "L"}, {"textDrawSoftwrapBody", "L"}, {"textFindContainerSizeBody", "L"},
 	{"textfieldDrawBody", "L"}, {"dynamicChildCtx", "L"},
 	// round 3 (ellipsis.go)
-	{"textEllipsisCond", "E"}, {"richEllipsisCond", "E"},
+	{"textEllipsisCond", "E"}, {"richEllipsisCond", "E"}, {"textHardLinesBody", "L"},
 }
 
 func gen(c *ex.Ctx) {
